@@ -2,6 +2,7 @@ package rules
 
 import (
 	"go/ast"
+	"go/token"
 	"go/types"
 	"strings"
 
@@ -23,6 +24,14 @@ func init() {
 		Run:      runC20,
 		Thorough: thoroughC20,
 		Mutants: []Mutant{
+			{Name: "hold-time-truncated-in-place", File: "internal/bgp/native/native.go",
+				Old: "\tret := &session{\n\t\tSessionParameters: sessionsParams,",
+				New: "\t*sessionsParams.HoldTime = sessionsParams.HoldTime.Truncate(time.Second)\n\tret := &session{\n\t\tSessionParameters: sessionsParams,", Expect: "store-through-field"},
+			{Name: "status-query-widens-announcer-interfaces", File: "internal/k8s/controllers/layer2_status_controller.go",
+				Old: "\tadv := advertisements[0]\n",
+				New: "\tadv := advertisements[0]\n\tadv.GetInterfaces().Insert(\"lo\")\n", Expect: "FETCHED-READONLY"},
+			{Name: "close-joins-the-receive-loop", File: "internal/layer2/arp.go",
+				Old: "func (a *arpResponder) Close() error {\n\tclose(a.closed)\n\treturn a.conn.Close()", New: "func (a *arpResponder) Close() error {\n\tclose(a.closed)\n\terr := a.conn.Close()\n\t<-a.closed\n\treturn err", Expect: "LOCK-NOBLOCK"},
 			{Name: "status-copy-made-after-unlock", File: "internal/layer2/announcer.go",
 				Old: "\ta.RLock()\n\tdefer a.RUnlock()\n\tadvs := a.ips[meta.String()]\n", New: "\ta.RLock()\n\tadvs := a.ips[meta.String()]\n\ta.RUnlock()\n", Expect: "LOCK-LEAK"},
 			{Name: "register-raw-handler", File: "internal/k8s/k8s.go",
@@ -64,6 +73,7 @@ func runC20(p *chk.Prog, r *chk.Report) {
 	c20Leak(p, r)
 	c20Reentrant(p, r)
 	c20Fetchers(p, r)
+	c20FetchedReadOnly(p, r)
 	sharedConfigRule(p, r)
 }
 
@@ -122,6 +132,59 @@ func c20Fetchers(p *chk.Prog, r *chk.Report) {
 		})
 		x.Check(row.fn+":reads-only-its-guarded-state", bad, ok, "", row.typ+"."+row.fn+" runs outside the handlers' serialisation and reads a field that its own mutex does not guard (unsynchronised access to handler-private state)")
 	}
+}
+
+// c20FetchedReadOnly: what the self-locking fetchers hand out still shares maps with the state behind their lock
+// (Announce.GetStatus copies the advertisements shallowly: their interface sets are the announcer's own). The status
+// reconcilers run on their own workers, outside the handlers' serialisation and without the fetcher's lock: they may
+// read what they fetched, never write through it.
+func c20FetchedReadOnly(p *chk.Prog, r *chk.Report) {
+	x := r.Rule("FETCHED-READONLY", "D ownership (effects)", "in the methods of the status reconcilers (Layer2StatusReconciler, ServiceBGPStatusReconciler, PoolStatusReconciler) nothing is stored, deleted, sorted in place or inserted through a value obtained from the fetcher fields (StatusFetcher, PeersFetcher, CountersFetcher) or handed down from such a call as a parameter", 6)
+	n := 0
+	for _, f := range p.FuncsIn(ctrlPkg) {
+		rv := f.Recv()
+		if rv == nil || f.Decl == nil || f.Body == nil {
+			continue
+		}
+		t := rv.Type()
+		if pt, isP := t.(*types.Pointer); isP {
+			t = pt.Elem()
+		}
+		nt, isN := t.(*types.Named)
+		if !isN {
+			continue
+		}
+		switch nt.Obj().Name() {
+		case "Layer2StatusReconciler", "ServiceBGPStatusReconciler", "PoolStatusReconciler":
+		default:
+			continue
+		}
+		n++
+		f := f
+		isFetch := func(c *ast.CallExpr) bool {
+			sel, isSel := ast.Unparen(c.Fun).(*ast.SelectorExpr)
+			if !isSel || f.ObjOf(sel.X) != types.Object(rv) {
+				return false
+			}
+			fld, isF := f.ObjOf(sel.Sel).(*types.Var)
+			return isF && fld.IsField() && strings.HasSuffix(fld.Name(), "Fetcher")
+		}
+		// parameters of the module's own data types (what a fetcher returned, handed down), not the framework's
+		// request / object arguments that the reconciler owns
+		stores := storesThroughHanded(f, false, isFetch)
+		for _, st := range storesThroughHandedParams(f, func(pv *types.Var) bool {
+			return strings.Contains(pv.Type().String(), chk.Module+"/internal/layer2.") || strings.Contains(pv.Type().String(), chk.Module+"/internal/allocator.")
+		}) {
+			stores = append(stores, st)
+		}
+		what, pos := "", f.Pos()
+		for _, st := range stores {
+			what += st.What + "; "
+			pos = st.Node.Pos()
+		}
+		x.Check(nt.Obj().Name()+"."+f.Decl.Name.Name+":fetched-state-is-only-read", pos, len(stores) == 0, "", "the status reconciler writes through what a fetcher handed out ("+what+"): the fetched advertisements share their interface sets with the announcer, which reads them under its own lock on other goroutines (data race, and the announcer's state changes behind its back)")
+	}
+	r.CallSites += n
 }
 
 func c20Entry(p *chk.Prog, r *chk.Report) {
@@ -349,6 +412,15 @@ func c20NoBlock(p *chk.Prog, r *chk.Report) {
 		sites, bad := callsHeld(p, row.pkg, lock, row.isOp)
 		x.Check(row.typ+"."+row.what+":never-under-"+lock.Name(), firstPos(bad), len(bad) == 0 && sites >= row.floor, "", row.what+" can execute while "+row.typ+"'s "+lock.Name()+" is held (the notified side reads under the same lock; with an unbuffered or full channel this deadlocks, and the notification reports a state that is not yet published)")
 		r.CallSites += sites
+	}
+	// nothing waits for another goroutine while the announcer lock is held: the responders' receive loops take the
+	// read lock for every request (shouldAnnounce), so a Close that joins the loop (WaitGroup.Wait, a receive from a
+	// done channel) under the write lock never returns once a request is in flight - and every handler behind the
+	// Listener mutex stops with it
+	if lk := p.LockField("internal/layer2", "Announce", ""); lk != nil {
+		waits := func(f *chk.Fn, c *ast.CallExpr) bool { return c20Joins(p, f, c, 0) }
+		_, bad := callsHeld(p, "internal/layer2", lk, waits)
+		x.Check("Announce:no-join-under-lock", firstPos(bad), len(bad) == 0, "", "a call that waits for another goroutine (sync.WaitGroup.Wait / a channel receive, directly or inside the callee) runs while the announcer lock is held: the goroutine waited for needs the read lock (shouldAnnounce) - deadlock")
 	}
 	// channel send on spamCh
 	lock := p.LockField("internal/layer2", "Announce", "")
@@ -733,4 +805,66 @@ func paramOnlyCalled(p *chk.Prog, f *chk.Fn, i int, depth int) bool {
 	}
 	walk(f.Body, false)
 	return ok
+}
+
+// c20Joins: the call waits for another goroutine: (*sync.WaitGroup).Wait, or a function of this module whose body
+// (callees included, three levels) contains such a wait or a channel receive outside a select with a default.
+func c20Joins(p *chk.Prog, f *chk.Fn, c *ast.CallExpr, depth int) bool {
+	fn, _ := f.Callee(c).(*types.Func)
+	if fn == nil {
+		// a method called through an interface of this module: every implementation counts
+		if sel, ok := ast.Unparen(c.Fun).(*ast.SelectorExpr); ok {
+			if s := f.Info().Selections[sel]; s != nil && s.Kind() == types.MethodVal {
+				if m, isFn := s.Obj().(*types.Func); isFn {
+					fn = m
+				}
+			}
+		}
+		if fn == nil {
+			return false
+		}
+	}
+	if fn.FullName() == "(*sync.WaitGroup).Wait" {
+		return true
+	}
+	if depth >= 3 {
+		return false
+	}
+	var bodies []*chk.Fn
+	if cf := p.FnOf(fn); cf != nil && cf.Body != nil {
+		bodies = append(bodies, cf)
+	} else if sig, ok := fn.Type().(*types.Signature); ok && sig.Recv() != nil {
+		if _, isIface := sig.Recv().Type().Underlying().(*types.Interface); isIface {
+			for _, cand := range p.Funcs() {
+				if cand.Decl != nil && cand.Decl.Recv != nil && cand.Decl.Name.Name == fn.Name() && cand.Pkg != nil && strings.HasPrefix(cand.Pkg.PkgPath, chk.Module) && cand.Body != nil {
+					bodies = append(bodies, cand)
+				}
+			}
+		}
+	}
+	for _, cf := range bodies {
+		found := false
+		chk.InspectNoLit(cf.Body, func(n ast.Node) bool {
+			if found {
+				return false
+			}
+			switch y := n.(type) {
+			case *ast.SelectStmt:
+				return false // a select is the callee's own way of not blocking for ever; not followed
+			case *ast.UnaryExpr:
+				if y.Op == token.ARROW {
+					found = true
+				}
+			case *ast.CallExpr:
+				if c20Joins(p, cf, y, depth+1) {
+					found = true
+				}
+			}
+			return true
+		})
+		if found {
+			return true
+		}
+	}
+	return false
 }
